@@ -423,10 +423,31 @@ def tour_vm_only():
     ]
 
 
+def module_programs():
+    """Multi-module programs (as (main, mods, None) triples): a parameter or local of an imported function named like a global
+    of its module, function literals that cross a module border in both directions, a singleton extracted by an imported
+    function (declared in the defining module only). No name is defined in two modules (open finding V22)."""
+    out = [
+        ("import { setx, getx, bump } from a;\nfn main() { println(getx()); setx(42); println(getx()); bump(5); println(getx()); setx(7); println(getx()); }",
+         {"a": "let x = 1;\npub fn getx() -> int { x }\npub fn setx(x: int) { println(\"setx\", x); }\npub fn bump(n: int) { let x = n * 2; println(\"bump\", x); }\nfn main() { }"}),
+        ("import { shadow, inc, get } from a;\nfn main() { println(shadow(100)); inc(); inc(); println(get()); println(shadow(5)); inc(); println(get()); }",
+         {"a": "let cnt = 0;\npub fn shadow(cnt: int) -> int { cnt + 1 }\npub fn inc() { cnt += 1; }\npub fn get() -> int { cnt }\nfn main() { }"}),
+        ("import { apply, get } from b;\nlet xm = 9;\nfn main() { println(apply(fn() -> int { get() })); println(apply(fn() -> int { xm })); }",
+         {"b": "let xb = 5;\npub fn get() -> int { xb }\npub fn apply(f: fn() -> int) -> int { f() + xb }\nfn main() { }"}),
+        ("import { twice, next, make } from lib;\nlet counter = 100;\nfn own() -> int { counter }\nfn main() { println(twice(fn() -> int { next() })); println(counter); println(next()); let add = make(); println(add(own)); counter = 2; println(add(own)); }",
+         {"lib": "let cnt = 0;\nlet base = 10;\npub fn next() -> int { cnt += 1; cnt }\npub fn twice(f: fn() -> int) -> int { f() + f() }\n"
+                 "pub fn make() -> fn(cb: fn() -> int) -> int { fn(cb: fn() -> int) -> int { cb() + base } }\nfn main() { }"}),
+        ("import { dim, level } from dev;\nfn main() { let a = dim(20); println(a, level()); let b = dim(5); println(b + level()); }",
+         {"dev": "$Lamp = { lvl: int };\npub fn dim(lamp: $Lamp, p: int) -> int { lamp.lvl = p; lamp.lvl }\npub fn level(lamp: $Lamp) -> int { lamp.lvl }\nfn main() { }"}),
+    ]
+    return [(m, mods, None) for m, mods in out]
+
+
 def all_families():
     return {
         "tour": tour(),
         "overlapping_match": overlapping_match(),
+        "modules": module_programs(),
         "nan": nan_programs(),
         "snapshot": snapshot(),
         "sharing": sharing(),
